@@ -1,4 +1,4 @@
 ----------------------- MODULE AlertPersistVerdictMC -----------------------
 EXTENDS AlertPersistVerdict
-MCIds == {"a", "b"}
+MCIds == {"a", "ab"}   \* one ID is a proper prefix of the other (the store is key-ordered)
 =============================================================================
